@@ -104,14 +104,14 @@ def gen_lists(seed, tier):
             ln = wl.choice([1, 3, 4, 1003, 1004, 1008, 1012, 1016, 2020, wl.randint(1, 300), wl.randint(1, 3000)])
             recs.append({"pos": [wl.randint(0, 5000), ln]})
         vbs.append(recs)
-    ipm = []
+    ipm = [("latin_1", "packaged", [])]
     for j in range(max(3, n // 3)):
         enc, cfg, msgs = msggen.gen_file_messages(Streams(sub_seed(seed, ID, "ipm", j)), nmax=6)
         ipm.append((enc, cfg, msgs))
     return vbs, ipm
 
 
-def build(level, blocked, storage, lst, seq):
+def build(level, blocked, storage, lst, seq, many=False):
     scn = {"kind": "vbs_pipeline", "level": level, "blocked": blocked, "storage": storage, "reader": "class",
            "knobs": {"MAX_VBS_RECORD_LENGTH": 6000}}
     if level == "vbs":
@@ -120,7 +120,10 @@ def build(level, blocked, storage, lst, seq):
     else:
         scn["encoding"], scn["config"], scn["messages"] = lst
         n = len(lst[2])
-    ops = (["enter"] if "exit" in seq else []) + [f"write:{i}" for i in range(n)] + list(seq)
+    writes = [f"write:{i}" for i in range(n)]
+    if many and n:
+        writes = [f"write_many:0:{n}"]
+    ops = (["enter"] if "exit" in seq else []) + writes + list(seq)
     scn["writer_ops"] = ops
     return scn
 
@@ -145,7 +148,7 @@ def run_task(task):
     c = part["counters"]
     for li, lst in enumerate(lists):
         for seq in fin_sequences(task["mmax"]):
-            scn = build(task["level"], task["blocked"], task["storage"], lst, seq)
+            scn = build(task["level"], task["blocked"], task["storage"], lst, seq, many=(li % 3 == 2))
             want_log = task["storage"] == "sim" and li < 2
             log = EventLog() if want_log else None
             fails, wr = judge(scn, log=log)
